@@ -3,6 +3,9 @@ import FP.Proofs.KMPE
 import FP.Proofs.RouteUser
 import FP.Proofs.ErrExample
 import FP.Proofs.MpeFactors
+import FP.Proofs.KMPEC
+import FP.Proofs.KMPECComplete
+import FP.Proofs.KLAECExample
 /-!
 # C08 — k-Minimum-Path-Error is feasible for k ≥ width and minimises total slack  (DAG model)
 
@@ -17,6 +20,18 @@ factors; completeness / feasibility / optimality for `path_length_factors = []`,
 and unit lengths. With path-length factors the code falsifies feasibility (findings
 C08-factors-lt1-bits, C08-factors-gt1-gamma-ub): the intended completeness statement
 `kmpe_factors_complete_FullStatement` is refuted on a concrete witness (`factors_gt1_infeasible`).
+
+**Cyclic class** (last section): `kmpecLP inp` is the LP of `kMinPathErrorCycles.__init__`
+(`elements_to_ignore_percentile = None`, no path-length factors; K2 LP-dump equality). Vocabulary
+(`FP/Spec/ErrWalks.lean`): `MPEC.SlackOK` — the slack inequality with traversal counts in place of
+indicators; `klaecCap` — the repetition caps (shared with `kLeastAbsErrorsCycles`); `MpecWithinCaps` —
+the families of `k` weighted walks with slacks the LP can represent (caps, `w_i·traversals_i(e) ≤ w_max`,
+`slack_i·traversals_i(e) ≤ w_max`). Soundness holds for every input (`kmpec_sound`); completeness and
+minimality of the total slack only *within* these bounds (`kmpec_complete_within_caps`,
+`kmpec_opt_within_caps`) — the bound `w_max = k·max f` on the products cuts off solutions of smaller
+total slack (`kmpec_wmax_cuts_optimum`, finding C08-mpecycles-wmax-cuts-optimum), and the repetition
+caps make the model infeasible at `k = width` on some inputs (finding C08-mpecycles-repetition-cap), so
+`kmpe_feasible_of_cover` / `kmpe_optimal` have no cyclic counterpart.
 -/
 namespace FP.Props.C08
 open FP FP.Spec FP.Spec.MPE
@@ -185,5 +200,146 @@ example : ∃ a, Sat a (kmpeLP ErrExample.mpe) :=
     ErrExample.base_wf ErrExample.base_acyclic rfl rfl rfl (by decide)
     (fun _ _ => ErrExample.route _) ErrExample.covers ErrExample.flows_ok ErrExample.scale_nonneg
   ⟨a, hsat⟩
+
+/-! ## the cyclic class `kMinPathErrorCycles` -/
+
+/-- **(a) soundness, cyclic class.** For every satisfying assignment of the `kMinPathErrorCycles` LP on a
+well-formed user digraph (cycles allowed): weights and slacks lie in `[0, w_max]` and are integral for
+`weight_type = int`; every layer decodes to a route of the *user's* graph (empty only if empty walks are
+allowed); the traversal counts of the decoded walk (synthetic endpoints put back) are the layer's edge
+variables, natural numbers within the repetition caps; `pi(e,i) = w_i · traversals_i(e) ≤ w_max` and
+`gamma(e,i) = slack_i · traversals_i(e) ≤ w_max` on every non-ignored edge; every non-ignored edge
+satisfies `|f(e) − Σ_i w_i·traversals_i(e)| · scale(e) ≤ Σ_i slack_i·traversals_i(e)`; the solver's
+objective is `Σ_i slack_i`. -/
+theorem kmpec_sound (inp : WalkInput) (a : Asg) (h : BaseWF inp.base) (hsat : Sat a (kmpecLP inp)) :
+    (∀ i, i < inp.k →
+        (0 ≤ a (weightsVar i) ∧ a (weightsVar i) ≤ inp.wmax true ∧
+          (inp.weightInt = true → IsInt (a (weightsVar i)))) ∧
+        (0 ≤ a (slackVar i) ∧ a (slackVar i) ≤ inp.wmax true ∧
+          (inp.weightInt = true → IsInt (a (slackVar i))))) ∧
+    (∀ i, i < inp.k →
+        (decodeWalkLayer inp.st a i = [] → inp.cfg.allowEmpty = true) ∧
+        (decodeWalkLayer inp.st a i ≠ [] →
+          ValidRoute inp.base inp.starts inp.ends (decodeWalkLayer inp.st a i))) ∧
+    (∀ i, i < inp.k → ∀ e ∈ inp.st.g.edges,
+        traversals (inp.st.source :: decodeWalkLayer inp.st a i ++ [inp.st.sink]) e = multOf a i e ∧
+        a (edgeVar e i) = (multOf a i e : Rat) ∧ (multOf a i e : Rat) ≤ klaecCap inp e) ∧
+    (∀ e ∈ inp.activeEdges true, ∀ i, i < inp.k →
+        a (piVar e i) = a (weightsVar i) * (multOf a i e : Rat) ∧
+        a (gammaVar e i) = a (slackVar i) * (multOf a i e : Rat) ∧
+        a (piVar e i) ≤ inp.wmax true ∧ a (gammaVar e i) ≤ inp.wmax true) ∧
+    (∀ e ∈ inp.activeEdges true,
+        MPEC.SlackOK inp (decodeWalkLayer inp.st a) (fun i => a (weightsVar i))
+          (fun i => a (slackVar i)) e) ∧
+    evalTerms a (kmpecLP inp).obj = totalSlack inp.k (fun i => a (slackVar i)) :=
+  FP.kmpec_sound_proof inp a h hsat
+
+/-- the solver's objective at an assignment is `Σ_i slack_i` -/
+theorem kmpec_objective (inp : WalkInput) (a : Asg) :
+    evalTerms a (kmpecLP inp).obj = totalSlack inp.k (fun i => a (slackVar i)) :=
+  FP.kmpecLP_obj inp a
+
+/-- in a satisfying assignment every multiplicity on a non-ignored edge fits into the
+`klaecBits inp = ⌈log2(w_max + 1)⌉` bit columns of its product blocks -/
+theorem kmpec_mult_bits (inp : WalkInput) (a : Asg) (hsat : Sat a (kmpecLP inp))
+    (e : Edge) (he : e ∈ inp.activeEdges true) (i : Nat) (hi : i < inp.k) :
+    multOf a i e < 2 ^ klaecBits inp :=
+  FP.kmpec_mult_bits inp a hsat e he i hi
+
+/-- **(b) restricted completeness, cyclic class.** `k ≥ 1` weighted source-to-sink walks of the augmented
+graph with slacks that are *within the caps* (`MpecWithinCaps`: repetition caps, weights and slacks in
+`[0, w_max]` of the requested type, traversal counts fitting the bits, **every product
+`w_i · traversals_i(e) ≤ w_max` and `slack_i · traversals_i(e) ≤ w_max`** on the non-ignored edges, the
+slack inequality on every non-ignored edge, subset constraints covered) extend to the satisfying
+assignment `kmpecWalkAsg` of the whole LP (all auxiliary columns included) with these traversal counts,
+weights and slacks and objective `Σ_i slack_i`. `KmpecNameInj`: the product blocks have pairwise
+different names; scales non-negative. -/
+theorem kmpec_complete_within_caps (inp : WalkInput) (walk : Nat → List Node) (w sl : Nat → Rat)
+    (hb : BaseWF inp.base) (hk : 0 < inp.k) (hinj : KmpecNameInj inp)
+    (hscale : ∀ e ∈ inp.activeEdges true, 0 ≤ inp.scale e)
+    (h : MpecWithinCaps inp walk w sl) :
+    Sat (kmpecWalkAsg inp walk w sl) (kmpecLP inp) ∧
+      (∀ i e, multOf (kmpecWalkAsg inp walk w sl) i e
+        = traversals (inp.st.source :: walk i ++ [inp.st.sink]) e) ∧
+      (∀ i, kmpecWalkAsg inp walk w sl (weightsVar i) = w i ∧
+        kmpecWalkAsg inp walk w sl (slackVar i) = sl i) ∧
+      evalTerms (kmpecWalkAsg inp walk w sl) (kmpecLP inp).obj = totalSlack inp.k sl :=
+  FP.kmpec_complete_within_caps_proof inp walk w sl hb hk hinj hscale h
+
+/-- … and conversely (no empty walks, no subset constraints) the decoded family of every satisfying
+assignment is within the caps: `MpecWithinCaps` describes exactly what the LP can represent -/
+theorem kmpec_decoded_within_caps (inp : WalkInput) (a : Asg) (hb : BaseWF inp.base)
+    (hae : inp.cfg.allowEmpty = false) (hcons : inp.cfg.constraints = [])
+    (hsat : Sat a (kmpecLP inp)) :
+    MpecWithinCaps inp (decodeWalkLayer inp.st a) (fun i => a (weightsVar i)) (fun i => a (slackVar i)) :=
+  FP.kmpec_decoded_within_caps inp a hb hae hcons hsat
+
+/-- **(c) optimum transfer, cyclic class.** For an optimum `a` of the LP the solver's objective is the
+total slack `Σ_i slack_i` of the returned solution, and it is at most the total slack of *every* family
+of `k` weighted walks with slacks within the caps. -/
+theorem kmpec_opt_within_caps (inp : WalkInput) (a : Asg) (hb : BaseWF inp.base) (hk : 0 < inp.k)
+    (hinj : KmpecNameInj inp)
+    (hscale : ∀ e ∈ inp.activeEdges true, 0 ≤ inp.scale e)
+    (hopt : ∀ a', Sat a' (kmpecLP inp) → evalTerms a (kmpecLP inp).obj ≤ evalTerms a' (kmpecLP inp).obj) :
+    evalTerms a (kmpecLP inp).obj = totalSlack inp.k (fun i => a (slackVar i)) ∧
+    ∀ walk' w' sl', MpecWithinCaps inp walk' w' sl' →
+      totalSlack inp.k (fun i => a (slackVar i)) ≤ totalSlack inp.k sl' :=
+  FP.kmpec_opt_within_caps_proof inp a hb hk hinj hscale hopt
+
+/-- **what the bound cuts off — the code falsifies minimality of the slack on cyclic inputs** (finding
+C08-mpecycles-wmax-cuts-optimum; instance `s → a ⇄ b`, additional end `b`, `f = (4, 0, 4)`,
+`error_scaling = {(a,b): 1/4}`, `k = 1`, `weight_type = int`, hence `w_max = 4`):
+
+* the LP the constructor builds has optimum `2`: the assignment of the walk `s a b a b` with weight `2`
+  and slack `2` is satisfying with objective `2`, and *every* satisfying assignment has objective at
+  least `2`;
+* yet the same walk — a route of the user's graph within the repetition caps — with weight `4 ≤ w_max`
+  and slack `1` satisfies the slack inequality on every non-ignored edge: total slack `1`;
+* that family is not within the caps (`pi(a,b) = 4·2 = 8 > w_max`).
+
+Replayed on the real code by `harness/props/c08.py` (returns slack 2, brute force 1). -/
+theorem kmpec_wmax_cuts_optimum :
+    (Sat (kmpecWalkAsg CycleWitness.inp CycleWitness.walk (fun _ => 2) (fun _ => 2))
+        (kmpecLP CycleWitness.inp) ∧
+      evalTerms (kmpecWalkAsg CycleWitness.inp CycleWitness.walk (fun _ => 2) (fun _ => 2))
+        (kmpecLP CycleWitness.inp).obj = 2) ∧
+    (∀ a, Sat a (kmpecLP CycleWitness.inp) → 2 ≤ evalTerms a (kmpecLP CycleWitness.inp).obj) ∧
+    (ValidRoute CycleWitness.inp.base CycleWitness.inp.starts CycleWitness.inp.ends (CycleWitness.walk 0) ∧
+      (∀ e ∈ CycleWitness.inp.st.g.edges,
+        (traversals (CycleWitness.inp.st.source :: CycleWitness.walk 0 ++ [CycleWitness.inp.st.sink]) e : Rat)
+          ≤ klaecCap CycleWitness.inp e) ∧
+      (4 : Rat) ≤ CycleWitness.inp.wmax true ∧
+      (∀ e ∈ CycleWitness.inp.activeEdges true,
+        MPEC.SlackOK CycleWitness.inp CycleWitness.walk (fun _ => 4) (fun _ => 1) e) ∧
+      totalSlack CycleWitness.inp.k (fun _ => 1) = 1) ∧
+    ¬ MpecWithinCaps CycleWitness.inp CycleWitness.walk (fun _ => 4) (fun _ => 1) :=
+  ⟨⟨CycleWitness.mpec_sat, CycleWitness.mpec_obj⟩, CycleWitness.mpec_lp_lower_bound,
+    ⟨CycleWitness.walk_valid, CycleWitness.laec_better_family.2.2, CycleWitness.laec_better_family.2.1,
+      CycleWitness.mpec_better_family, by decide +kernel⟩,
+    CycleWitness.mpec_cut_off⟩
+
+/-! ### non-vacuity (cyclic class) -/
+
+/-- (a) applies to a concrete satisfying assignment of a cyclic instance (63 columns, 113 rows, checked
+column by column and row by row) … -/
+example := kmpec_sound CycleWitness.inp _ CycleWitness.base_wf CycleWitness.mpec_sat_checked
+
+/-- … which decodes to the walk `s a b a b` (once round the cycle `a ⇄ b`) and has objective `2` -/
+example : decodeWalkLayer CycleWitness.inp.st
+    (kmpecWalkAsg CycleWitness.inp CycleWitness.walk (fun _ => 2) (fun _ => 2)) 0
+      = ["s", "a", "b", "a", "b"] :=
+  CycleWitness.mpec_decode
+
+/-- the hypotheses of (b) hold for that family -/
+example := kmpec_complete_within_caps CycleWitness.inp CycleWitness.walk _ _ CycleWitness.base_wf
+  (by decide) CycleWitness.mpec_names CycleWitness.scale_nonneg CycleWitness.mpec_within
+
+/-- (c) applies to a true optimum of the instance (`CycleWitness.mpec_optimal`: objective `2`, minimal) -/
+example := kmpec_opt_within_caps CycleWitness.inp _ CycleWitness.base_wf (by decide)
+  CycleWitness.mpec_names CycleWitness.scale_nonneg CycleWitness.mpec_optimal
+
+/-- the decoded family of the concrete satisfying assignment is within the caps -/
+example := kmpec_decoded_within_caps CycleWitness.inp _ CycleWitness.base_wf rfl rfl
+  CycleWitness.mpec_sat_checked
 
 end FP.Props.C08
